@@ -229,6 +229,35 @@ def run(ctx, idx):
         d, r = res[name]
         dtype_rule(ctx, "C08.d", d, r)
         R.uses_all_inputs(ctx, "C08.e", d, r)
+    ctx.rule("C08.g", "Optional numeric parameters are never tested by truthiness (an explicit 0 is a legitimate threshold/value).")
+    ctx.rule("C08.h", "NormalizeMeanToMid builds its five raw control points as [min, mean of lower part, mean, mean of upper part, max] where min and max are reductions over the whole input (IgnoreZeros only affects the means, as documented).")
+    for name in CONVERSIONS:
+        d, r = res[name]
+        nt = [f for f in r.findings if f[0] == "numtruth"]
+        con = "%s.execute::zero-is-a-value" % d.key
+        if nt:
+            ctx.violate("C08.g", con, d.module.rel, nt[0][1], nt[0][2])
+        else:
+            ctx.hold("C08.g", con, d.module.rel, d.execute.node.lineno, "numeric parameters are not used as booleans", nontrivial=False)
+    d, r = res["NormalizeMeanToMid"]
+    con = "%s.execute::control-points" % d.key
+    sup = [x for x in r.super_calls if x[0].func.attr == "execute" and x[1] is not None]
+    if not sup:
+        ctx.violate("C08.h", con, d.module.rel, d.execute.node.lineno, "NormalizeMeanToMid no longer delegates to NormalizeCurve with computed RawValues")
+    else:
+        raw = sup[0][1].d.get("RawValues")
+        items = raw.items if isinstance(raw, Lst) and raw.items is not None else None
+        if items is None or len(items) != 5:
+            raise AnalysisError("C08.h: RawValues passed to NormalizeCurve is not a five-element list of statistics")
+        syms = [getattr(x, "sym", None) for x in items]
+        probs = []
+        if syms[0] != "stat:min(all)":
+            probs.append("the lowest control point is %s, not the minimum of the whole input" % (syms[0] or "not a data statistic"))
+        if syms[4] != "stat:max(all)":
+            probs.append("the highest control point is %s, not the maximum of the whole input" % (syms[4] or "not a data statistic"))
+        if not all(sy and sy.startswith("stat:mean(") for sy in syms[1:4]):
+            probs.append("the inner control points are %s, not means" % syms[1:4])
+        ctx.ob("C08.h", con, d.module.rel, sup[0][0].lineno, not probs, "control points: min(all), mean, mean, mean, max(all)" if not probs else "; ".join(probs) + " (IgnoreZeros is documented to affect only the means)")
     n = 0
     for d, r in R.results(idx).values():
         if d.is_fuzzy is True and d.is_data():
